@@ -88,6 +88,15 @@ def ops18 : List (String × Op) := [
     .ok (Json.mkObj [("base", setupJ18 base), ("second", setupJ18 second), ("expected", expected),
                      ("second_dimorder", optNatsJ18 P'.dimorder), ("second_optdims", optNatsJ18 P'.optdims),
                      ("second_shape", natsJ (gather shape p))])),
+  -- the arguments of the second run of tucker_als / hosvd: rank vector gathered by p, dimorder mapped through invPerm p
+  ("c18_relabel_args", fun j => do
+    let n ← field j "ndims" >>= asNat
+    let p ← field j "p" >>= asNats
+    let ranks ← optNats18 j "ranks"
+    let dimorder ← optNats18 j "dimorder"
+    .ok (Json.mkObj [("ranks", optNatsJ18 (ranks.map fun r => gather (Tk.parseRank r n) p)),
+                     ("dimorder", natsJ (CpAls.qmap p (Tk.modeOrder dimorder n))),
+                     ("shape_of", natsJ (gather (List.range n) p))])),
   -- HOSVD / Tucker-ALS under relabelling: the permuted array, one mode product and the Gram matrix of an unfolding
   ("c18_relabel_ttm", fun j => do
     let X ← field j "X" >>= asDense
